@@ -861,7 +861,20 @@ public:
         bool VisitMemberExpr(MemberExpr* e)
         {
             if (auto const* fd = dyn_cast<FunctionDecl>(e->getMemberDecl()))
+            {
                 if (x.matches(x.callRe, qualName(fd))) found = true;
+            }
+            else if (auto const* fld = dyn_cast<FieldDecl>(e->getMemberDecl()))
+            {
+                // data members too: who-may-touch queries on a field
+                if (x.matches(x.callRe, qualName(fld))) found = true;
+            }
+            return !found;
+        }
+        bool VisitCXXDependentScopeMemberExpr(CXXDependentScopeMemberExpr* e)
+        {
+            // unresolved in a template pattern: match on "?::<member name>"
+            if (x.matches(x.callRe, "?::" + e->getMember().getAsString())) found = true;
             return !found;
         }
         bool VisitUnresolvedLookupExpr(UnresolvedLookupExpr* e)
